@@ -79,6 +79,12 @@ Theorem C09_cross_spec : forall st tf tm maxf maxm uf um ds2 fo mo st' ds',
     end.
 Proof. exact (cross_spec arity_tab). Qed.
 
+(* on well-formed parents _cross never raises and never gets stuck: it does return two trees *)
+Theorem C09_cross_total : forall st tf tm maxf maxm uf um ds2,
+  WFt arity_tab st tf -> WFt arity_tab st tm ->
+  exists fo mo st', cross st (tid tf) (tid tm) maxf maxm (uf :: um :: ds2) = Ok (fo, mo, st', ds2).
+Proof. exact (cross_total arity_tab). Qed.
+
 Theorem C09_cross_conserves : forall st tf tm maxf maxm uf um ds2 fo mo st' ds',
   WFt arity_tab st tf -> WFt arity_tab st tm ->
   cross st (tid tf) (tid tm) maxf maxm (uf :: um :: ds2) = Ok (fo, mo, st', ds') ->
